@@ -74,7 +74,9 @@ func (d *Decorator) ParseFile(filename string, src interface{}, mode parser.Mode
 	// If ParseFile returns an error and also a non-nil file, the errors were just parse errors so
 	// we should continue decorating the file and return the error.
 	f, perr := parser.ParseFile(d.Fset, filename, src, mode|parser.ParseComments)
-	if perr != nil && f == nil {
+	if perr != nil && (f == nil || !f.Package.IsValid()) {
+		// Without a package clause there is no position to find the file in the FileSet with, so
+		// there is nothing we can decorate. Return the parse error.
 		return nil, perr
 	}
 
